@@ -890,6 +890,10 @@ impl Runner {
                 }
                 amounts.push(x.max(1));
                 amounts.push(x.saturating_add(1));
+                for _ in 0..3 {
+                    let v = self.structured(u128::MAX >> 2);
+                    amounts.push(v);
+                }
                 amounts.push((x / 2).max(1));
                 for _ in 0..2 {
                     if let Some((a, _)) = self.directed_offer(x, y, u128::MAX >> 2) {
@@ -971,7 +975,8 @@ impl Runner {
                     1 => Some(self.rng.range(1, 40) as u32),
                     _ => Some(*self.rng.pick(&[1u32, 2, 3, 9, 10, 11, 29, 30, 31, 40])),
                 };
-                self.deliver(prober, Op::Walk { limit }, false, None, "probe walk".into());
+                let flip = self.rng.chance(35, 100);
+                self.deliver(prober, Op::Walk { limit, flip }, false, None, "probe walk".into());
             }
             5 => {
                 self.deliver(prober, Op::AuthMatrix {}, false, None, "probe auth-matrix".into());
@@ -1058,9 +1063,10 @@ impl Runner {
         let prober = AddrRef::Actor("trader".into());
         self.deliver(prober.clone(), Op::AuditRegistry {}, false, None, "final audit-registry".into());
         if self.profile.probes[4] > 0 {
-            self.deliver(prober.clone(), Op::Walk { limit: None }, false, None, "final walk".into());
+            self.deliver(prober.clone(), Op::Walk { limit: None, flip: false }, false, None, "final walk".into());
             let l = self.rng.range(1, 40) as u32;
-            self.deliver(prober.clone(), Op::Walk { limit: Some(l) }, false, None, "final walk".into());
+            let flip = self.rng.chance(50, 100);
+            self.deliver(prober.clone(), Op::Walk { limit: Some(l), flip }, false, None, "final walk".into());
         }
         if self.profile.probes[5] > 0 {
             self.deliver(prober.clone(), Op::AuthMatrix {}, false, None, "final auth-matrix".into());
